@@ -12,6 +12,7 @@ declare -A CHECKS=(
  [yens-spur-state-not-retraversed]="C13 C03"
  [yens-candidates-forgotten]="C13"
  [c19-lock-released-before-newline]="C19"
+ [c10-runtime-limit-stops-at-half-budget]="C10"
 )
 for n in "${!CHECKS[@]}"; do
   /verif/tools/try_mutant.sh /verif/seeded/regress/$n.diff $TIER ${CHECKS[$n]} 2>&1 | sed "s/^/$n: /" | grep -v "^$n:    "
